@@ -22,13 +22,14 @@ use crate::types::{AcctPathMapping, NodeClient, WalletBackend};
 pub fn next_available_key<'a, T: ?Sized, C, K>(
 	wallet: &mut T,
 	keychain_mask: Option<&SecretKey>,
+	parent_key_id: &Identifier,
 ) -> Result<Identifier, Error>
 where
 	T: WalletBackend<'a, C, K>,
 	C: NodeClient + 'a,
 	K: Keychain + 'a,
 {
-	let child = wallet.next_child(keychain_mask)?;
+	let child = wallet.next_child(keychain_mask, parent_key_id)?;
 	Ok(child)
 }
 
